@@ -149,6 +149,14 @@ CLAIMED = {
          "texts up to 4 (6) characters; known finding F06 suppressed for exactly its inputs.",
          "TLA+ definition of unmatched-input handling; exhaustive texts replayed on scanner and parsers",
          "DESIGN.md §6 C16"),
+ "C17": ("model_checking",
+         "(a) Scanner.tla configurations with state-specific %skip lists (incl. a skipped token that itself switches the state) and comments: "
+         "expected skip flags; LL and LR parsers succeed iff no error token, deliver each comment once in order, keep skipped tokens as "
+         "leaves. (b) LLParser.tla validates runs on texts decorated with blanks/newlines/comments against the plain text's run: same "
+         "verdict and action sequence (metamorphic), comments once in order on accepted inputs.",
+         "texts up to 4 (6) characters; decorated variants: 2 per sampled input.",
+         "TLA+ tokenisation definition + TLC trace validation with a metamorphic reference run",
+         "DESIGN.md §6 C17"),
 }
 
 NOT_YET = "check not built yet in this round (see DESIGN.md §11.2 build order); will be claimed once its quick check passes on the unchanged tree"
